@@ -372,6 +372,9 @@ def decision_specs(prop='C09'):
                         idx=None, options={}, arglike=False, static=SObj('static', {}))
         it.exec_block(stmts, env)
         ctx.notes['outcome'] = 'return'
+        if 'del_tgt_pars' not in env.vars or 'deferred_par' not in env.vars:
+            raise LookupError('the decision block no longer defines del_tgt_pars / deferred_par (locals renamed?): the contract '
+                              'reads the outcome of the decision from them')
         del_tgt = env.vars.get('del_tgt_pars')
         deferred = env.vars.get('deferred_par')
         unpar = '_unparenthesize_grouping' in log
